@@ -76,6 +76,12 @@ def run(ctx, res):
     for i, (addr, ln) in enumerate(cases):
         regs = base if i % 4 else {n: U.rand_bytes(rng, sz) for n, sz in U.REGION_SIZES}
         data = bytes(rng.randrange(1, 256) for _ in range(ln))
+        if i % 3 == 0 and ln > 1 and addr + ln <= 0x4300:
+            # data that repeats what memory already holds, except for its tail / its head / one byte (re-applying an edited dump)
+            cur = flat(regs)[addr:addr + ln]
+            mode = rng.choice(['tail', 'head', 'one'])
+            k = rng.randrange(1, ln) if mode != 'one' else rng.randrange(ln)
+            data = {'tail': cur[:k] + data[k:], 'head': data[:k] + cur[k:], 'one': cur[:k] + bytes([cur[k] ^ 0x55]) + cur[k + 1:]}[mode]
         status, after = run_impl(regs, data, addr)
         oracle(res, regs, data, addr, status, after, 'write')
         res.evaluations += 1
